@@ -13,9 +13,16 @@ import (
    I will be making some changes to the grammar but I do want it to be as close to the specification as possible
 */
 
-func parse_regexp(tokens []*Token, token_index int) (AstExpression, int, error) {
+func parse_regexp(tokens []*Token, token_index int) (result AstExpression, next_index int, err error) {
 	regexp_token := tokens[token_index]
 	regexp := regexp_token.Lexeme
+
+	// a malformed pattern must be reported, not crash the caller
+	defer func() {
+		if r := recover(); r != nil {
+			result, next_index, err = nil, token_index, NewParseError(regexp_token, fmt.Sprintf("Malformed regular expression: %v", r))
+		}
+	}()
 
 	results, _, err := parse_regexp_disjunction(regexp_token, regexp, 0)
 	if err != nil {
